@@ -7,6 +7,7 @@ import (
 	"sort"
 	"strings"
 
+	"github.com/markkurossi/mpc/circuit"
 	"github.com/markkurossi/mpc/compiler"
 	"github.com/markkurossi/mpc/compiler/utils"
 
@@ -27,7 +28,15 @@ func main() {
 		src, probe := gen.MPCL(t)
 		p := utils.NewParams()
 		p.Warn.DisableAll()
-		circ, _, err := compiler.New(p).Compile(src, probe)
+		circ, err := func() (c *circuit.Circuit, err error) {
+			defer func() {
+				if r := recover(); r != nil {
+					err = fmt.Errorf("PANIC: %v", r)
+				}
+			}()
+			c, _, err = compiler.New(p).Compile(src, probe)
+			return
+		}()
 		if err != nil {
 			e := strings.SplitN(err.Error(), "\n", 2)[0]
 			if j := strings.Index(e, ": "); j > 0 {
